@@ -204,7 +204,7 @@ def run(ctx):
         raise util.MachineryError("script generation incomplete (%d, %d)" % (len(s3), len(rc)))
     rng = random.Random(ctx.seed + 110)
     rng.shuffle(s3)
-    scripts = s2 + s3[:ctx.pick(500, 6000)]
+    scripts = s2 + s3[:ctx.pick(500, 1200)]
     configs = [("thread", s, r, t) for s in (0, 65) for r in (0, 1, 2) for t in (0, 45)] + [("multiplex", s, 0, t) for s in (0, 65) for t in (0, 45)]
     jobs = []
     # always, under every configuration: a connection left idle for longer than the daemon's timeout, then used again
